@@ -1246,11 +1246,28 @@ _DOF_PROBE_POINTS = {1: np.array([[0.13], [0.71]]), 2: np.array([[0.11, 0.23], [
                      3: np.array([[0.11, 0.23, 0.17], [0.47, 0.19, 0.08], [0.2, 0.36, 0.3]])}
 
 
-def _full_element_dof(el, mt, ic):
-    """Index j of the basis function of the full element `el` whose reference component `flat_component` (with the local
-    derivatives of `mt`) is column `ic` of the component element's tabulation — found by comparing basix tabulations on
-    generic points; None if the full element cannot be tabulated (basix raises for some mixed elements) or no unique match."""
+def _leaf_dof(el, fc, derivs, ic):
+    """Blocked / vector-valued leaf element: the basis function j of the FULL element whose reference component `fc` is
+    column `ic` of the component element — by comparing basix tabulations on generic points (None: no unique match)."""
     from ffcx.element_interface import basix_index
+    td = el.cell.topological_dimension
+    X = _DOF_PROBE_POINTS[td]
+    nd = sum(derivs)
+    comp_el, _off, _stride = el.get_component_element(fc)
+    col = np.asarray(comp_el.tabulate(nd, X))[basix_index(derivs)][:, ic]
+    full = np.asarray(el.tabulate(nd, X))[basix_index(derivs)]  # [npts, value_size, ndofs]
+    if full.ndim == 2:
+        full = full[:, None, :]
+    if float(np.abs(col).max()) < 1e-12:
+        return None
+    hits = [j for j in range(full.shape[2]) if np.allclose(full[:, fc, j], col, atol=1e-12)]
+    return hits[0] if len(hits) == 1 else None
+
+
+def _full_element_dof(el, mt, ic):
+    """Index of the dof of element `el` that column `ic` of the table of modified terminal `mt` belongs to, derived without
+    FFCx's (offset, stride): mixed elements are the concatenation of their sub-elements (dims and reference value sizes
+    from basix.ufl), a blocked / vector-valued leaf is resolved by `_leaf_dof` (basix tabulation of the full leaf)."""
     from ffcx.ir.elementtables import get_modified_terminal_element
     try:
         res = get_modified_terminal_element(mt)
@@ -1259,23 +1276,51 @@ def _full_element_dof(el, mt, ic):
         element, avg, derivs, fc = res
         if avg or element != el:
             return None
-        td = el.cell.topological_dimension
-        X = _DOF_PROBE_POINTS[td]
-        nd = sum(derivs)
-        comp_el, _off, _stride = el.get_component_element(fc)
-        col = np.asarray(comp_el.tabulate(nd, X))[basix_index(derivs)][:, ic]
-        full = np.asarray(el.tabulate(nd, X))[basix_index(derivs)]  # [npts, value_size, ndofs] or [npts, ndofs*vs]
-        if full.ndim == 2:
-            vs = int(el.reference_value_size)
-            full = full.reshape(full.shape[0], vs, -1) if full.shape[1] == vs * int(el.dim) else None
-        if full is None or float(np.abs(col).max()) < 1e-12:
-            return None
-        hits = [j for j in range(full.shape[2]) if np.allclose(full[:, fc, j], col, atol=1e-12)
-                and np.allclose(np.delete(full[:, :, j], fc, axis=1), 0.0, atol=1e-12) or
-                (np.allclose(full[:, fc, j], col, atol=1e-12) and full.shape[1] == 1)]
-        return hits[0] if len(hits) == 1 else None
-    except Exception:  # noqa: BLE001 - basix cannot tabulate this full element: nothing independent to compare with
+        base = 0
+        cur = el
+        while type(cur).__name__ == "_MixedElement":
+            for sub in cur.sub_elements:
+                vs = int(sub.reference_value_size)
+                if fc < vs:
+                    cur = sub
+                    break
+                fc -= vs
+                base += int(sub.dim)
+            else:
+                return None
+        j = _leaf_dof(cur, fc, derivs, ic)
+        return None if j is None else base + j
+    except Exception:  # noqa: BLE001 - basix cannot tabulate this element: nothing independent to compare with
         return None
+
+
+def extra_corr_forms():
+    """Interior/exterior-facet forms with blocked, tensor-valued, vector-valued (Piola) and mixed elements — for the table
+    and dof-offset correspondences only (the closure oracle of c02_cases is scalar-valued; the generic oracle pass
+    `oracle_corpus` covers values of such forms)."""
+    from ufl import FacetNormal, FunctionSpace, TestFunction, TrialFunction, avg, dS, ds, inner, jump
+    out = []
+
+    def add(name, cell, el, rank2=True, exterior=False):
+        m = mesh(cell)
+        V = FunctionSpace(m, el)
+        u, v = TrialFunction(V), TestFunction(V)
+        n = FacetNormal(m)
+        if exterior:
+            a = inner(u, v) * ds
+        else:
+            a = inner(jump(u), jump(v)) * dS + inner(avg(u), v("-")) * dS + n("+")[0] * inner(u("-"), v("+")) * dS
+        out.append((name, [a]))
+    add("xc_vecP1_tri", "triangle", basix.ufl.element("P", "triangle", 1, shape=(2,)))
+    add("xc_vecP2_tet", "tetrahedron", basix.ufl.element("P", "tetrahedron", 2, shape=(3,)))
+    add("xc_tensorP1_tri", "triangle", basix.ufl.element("P", "triangle", 1, shape=(2, 2)))
+    add("xc_vecQ1_quad", "quadrilateral", basix.ufl.element("Q", "quadrilateral", 1, shape=(2,)))
+    add("xc_n1curl_tet", "tetrahedron", basix.ufl.element("N1curl", "tetrahedron", 1))
+    add("xc_rt_tri", "triangle", basix.ufl.element("RT", "triangle", 1))
+    add("xc_mixed_tri", "triangle", basix.ufl.mixed_element([basix.ufl.element("P", "triangle", 2, shape=(2,)),
+                                                              basix.ufl.element("P", "triangle", 1)]))
+    add("xc_vecP2_tri_ext", "triangle", basix.ufl.element("P", "triangle", 2, shape=(2,)), exterior=True)
+    return out
 
 
 def corr_layout(chk, d, rng):
